@@ -487,17 +487,19 @@ package resolver
 //@   assert at call middleware/resolver/dnssec.VerifyRRSIGWithWork#1: msg == resp ==> arg1 == lastret("middleware/resolver/dnssec.AnchoredKeysWithWork") && lastret("middleware/resolver/dnssec.AnchoredKeysWithWork", 1) == nil
 //@   assert at call middleware/resolver/dnssec.VerifyRRSIGWithWork#1: msg != resp ==> arg1 == keys
 //@   assert at call middleware/resolver/dnssec.AnchoredKeysWithWork#1: arg0 == keys && arg1 == parentdsRR && msg == resp
-//@   assert at return#13: result0 && result1 == nil && lastret("middleware/resolver/dnssec.VerifyRRSIGWithWork") && lastret("middleware/resolver/dnssec.VerifyRRSIGWithWork", 1) == nil && lastret("middleware/resolver/dnssec.VerifyDSWithWork", 1) == nil
+//@   assert at return#12: result0 && result1 == nil && lastret("middleware/resolver/dnssec.VerifyRRSIGWithWork") && lastret("middleware/resolver/dnssec.VerifyRRSIGWithWork", 1) == nil && lastret("middleware/resolver/dnssec.VerifyDSWithWork", 1) == nil
 //@   assert at return#4: result0 && result1 == nil && lastret("(*middleware/resolver.Resolver).verifyRootKeys") && lastret("(*middleware/resolver.Resolver).verifyRootKeys", 1) == nil
 //@   assert at return#7: !result0 && result1 == nil && lastret("middleware/resolver/dnssec.VerifyDSWithWork") && lastret("middleware/resolver/dnssec.VerifyDSWithWork", 1) != nil
 //@   assert at return#2: !result0
 //@   assert at return#3: !result0
 //@   assert at return#5: !result0
 //@   assert at return#6: !result0
-//@   assert at return#9: !result0
-//@   assert at return#10: !result0 && result1 != nil
-//@   assert at return#11: result1 != nil
-//@   assert at return#12: !result0 && result1 == nil
+//@   assert at return#9: !result0 && result1 != nil
+//@   assert at return#10: result1 != nil
+//@   # "a zone is treated as unsigned only on a validated proof ...": the verdict "not secure, and no error" - which callers
+//@   # read as an unsigned zone - is given for exactly two reasons: every DS digest is of an unsupported kind (return 7),
+//@   # or the signatures WERE checked and did not verify with a usable key (return 11). Never for the question's type.
+//@   assert at return#11: !result0 && result1 == nil && calls("middleware/resolver/dnssec.VerifyRRSIGWithWork") == 1 && !lastret("middleware/resolver/dnssec.VerifyRRSIGWithWork")
 //@   assert at return#1: result1 != nil
 //@   assert at return#8: result1 != nil
 //@
